@@ -19,12 +19,13 @@ RULE = (
     "CLI tier: Hypothesis draws 2-6 source files (generated SVGs with shared shape libraries, several colours, codepoint-sequence file names so "
     "that sequence-only codepoints, palette and reuse groups are sets of size >= 2), a colour format (vector, OT-SVG, bitmap) and a variation: a "
     "permutation of the argument list, sources spread over two directories and spelled relative to different working directories, PYTHONHASHSEED in {0, 1, drawn}, ninja -j in {1, 2, 16} through a PATH shim, seeded per-step latencies that "
-    "perturb completion order, and a copy of the workspace at another absolute location with another cwd and --build_dir. Oracle: with "
-    "SOURCE_DATE_EPOCH fixed the sha256 of the output font is identical across the base build and every variant. API tier: the same generated "
+    "perturb completion order, a copy of the workspace at another absolute location with another cwd and --build_dir, and a schedule the harness "
+    "owns: build.ninja generated with --noexec_ninja, ninja asked for 1-4 single targets in a drawn order (the font itself first in half of the "
+    "cases) before the full build. Oracle: with SOURCE_DATE_EPOCH fixed the sha256 of the output font is identical across the base build and every variant. API tier: the same generated "
     "inputs through write_font._generate_color_font in fresh interpreters with different hash seeds: identical bytes. Non-trivial: >= 2 sources "
     "and (>= 2 sequence-only codepoints, >= 2 colours or a reuse group of >= 2 glyphs)."
 )
-ASSUMPTIONS = ["ninja's scheduling is influenced (-j, latencies), not enumerated", "resvg/pngquant/zopfli are deterministic tools"]
+ASSUMPTIONS = ["ninja's scheduling is influenced (-j, latencies, single-target requests), not enumerated", "resvg/pngquant/zopfli are deterministic tools"]
 BUDGET = {"quick": 48, "thorough": 1200}
 TIMEOUT = {"quick": 1500, "thorough": 7200}
 FORMATS = ["glyf_colr_1", "glyf_colr_1", "glyf_colr_0", "cff2_colr_1", "glyf", "picosvg", "picosvgz", "untouchedsvg", "cbdt", "sbix"]
@@ -53,6 +54,9 @@ def det_case(draw, tier):
         "jobs": draw(st.sampled_from([1, 2, 16])),
         "delay": draw(st.integers(1, 10 ** 6)),
         "keep_names": draw(st.booleans()),
+        # a schedule the harness owns: which build targets are requested from ninja one by one, before the full build
+        "sched": [draw(st.floats(0, 0.999)) for _ in range(3)],
+        "font_first": draw(st.booleans()),
     }
     return {"kind": kind, "fmt": fmt, "sources": sources, "var": var}
 
@@ -132,6 +136,38 @@ def _build(ws, root, names, fmt, build_dir, keep, **kw):
     return rc, out, (sha(fonts[0]) if rc == 0 and fonts else None)
 
 
+def _target_schedule(ws, root, names, fmt, var):
+    """Generate build.ninja only, then ask ninja for single targets in a drawn order (the font first in half of the cases: every
+    step the font needs must be reachable through declared edges), then run the full build. Any order of requests that the
+    declared graph allows is a schedule a parallel ninja may take."""
+    bd = "build_sched"
+    args = ["nanoemoji", "--color_format", fmt, "--build_dir", bd, "--noexec_ninja"] + (["--keep_glyph_names"] if var["keep_names"] else [])
+    if fmt in ("cbdt", "sbix"):
+        args += ["--bitmap_resolution", "32"]
+    rc, out = ws.run(args + names, cwd=root, hashseed="0")
+    label = "target-schedule"
+    if rc != 0:
+        return label, "FAILED:" + tail(out, 2)
+    rc, out = ws.run(["ninja", "-C", bd, "-t", "targets", "all"], cwd=root)
+    targets = sorted(l.split(": ")[0] for l in out.splitlines() if ": " in l and not l.startswith("ninja:"))
+    fonts = [t for t in targets if t.endswith((".ttf", ".otf")) and "/" not in t]
+    order = []
+    if var["font_first"] and fonts:
+        order.append(fonts[0])
+    for f in var["sched"]:
+        if targets:
+            order.append(targets[int(f * len(targets))])
+    for t in order:
+        rc, out = ws.run(["ninja", "-C", bd, t], cwd=root, hashseed="0", ninja_j=var["jobs"])
+        if rc != 0:
+            return label + ":" + t, "FAILED:" + tail(out, 3)
+    rc, out = ws.run(["ninja", "-C", bd], cwd=root, hashseed="0", ninja_j=var["jobs"])
+    if rc != 0:
+        return label, "FAILED:" + tail(out, 3)
+    built = fonts_in(os.path.join(root, bd))
+    return label + ",requests=%s" % ";".join(order), (sha(built[0]) if built else "NO FONT")
+
+
 def judge_cli(case, v):
     import shutil
 
@@ -175,6 +211,8 @@ def judge_cli(case, v):
         rel_names = [os.path.relpath(os.path.join(root, n), cwd3) for n in names]
         rc, out, h = _build(ws, cwd3, rel_names, fmt, os.path.join(root, "build_rel"), var["keep_names"], hashseed="0", ninja_j=4)
         results.append(("relative-spelling-from-subdir", h if rc == 0 else "FAILED:" + tail(out, 2)))
+        if "sched" in var:
+            results.append(_target_schedule(ws, root, names, fmt, var))
         v.extra_evals = len(results) - 1
         for label, h in results[1:]:
             if h != h0:
